@@ -190,6 +190,7 @@ class Engine:
             elif tag == 'box' and p == 0: v = ('unique', v[1])
             elif tag == 'unique' and p == 0: v = ('ref', v[1], ())
             elif tag == 'cplx': v = v[1 + p]
+            elif tag == 'closure' and len(v) > 2: v = v[2][p]
             else: raise Unsupported('field %r of %r' % (p, tag if tag else v))
             variant = None
         return v
@@ -384,7 +385,7 @@ class Engine:
         if k == 'struct': return adt(mirparse_strip(rv[1]), None, [self.operand(st, fr, v) for _, v in rv[2]])
         if k == 'tuple': return ('tuple', tuple(self.operand(st, fr, a) for a in rv[1]))
         if k == 'array': return ('array', tuple(self.operand(st, fr, a) for a in rv[1]))
-        if k == 'closure': return ('closure', rv[1])
+        if k == 'closure': return ('closure', rv[1], tuple(self.operand(st, fr, c) for c in rv[2]))
         if k == 'len':
             v = self.load(st, fr, rv[1]); return len(v[1])
         if k == 'binop': return self.binop(st, fr, rv, dest)
@@ -550,7 +551,7 @@ class Engine:
                 elif s[0] == 'setdiscr':
                     v = self.load(st, fr, s[1])
                     ek = v[1]; self.store(st, fr, s[1], adt(ek, self.prog.enums[ek][s[2]], v[3] if v[0] == 'adt' else ()))
-                else: raise Unsupported('stmt ' + s[0])
+                else: raise Unsupported('stmt ' + s[0] + (': ' + s[1][:120] if s[0] == 'unparsed' else ''))
             t = blk.term; stats.stmts += 1; stats.transitions += 1; k = t[0]
             if k == 'goto':
                 self.jump(st, fr, t[1])
